@@ -334,6 +334,33 @@ def replay_path(run, h, g, path, full_crash):
     return ok
 
 
+def second_device(r, h):
+    """The store API takes a device id.  Storing a session for another device of a contact either keeps both sessions or is refused:
+    it never silently destroys the session that exists (checked after reopening)."""
+    db = h.fresh_path()
+    st = h.open(db)
+    r.case(("second-device",))
+    rec1, rec2 = h.value("sessions", "v1"), h.value("sessions", "v2")
+    st.storeSession(RECIP["k1"], 1, rec1)
+    refused = None
+    try:
+        st.storeSession(RECIP["k1"], 2, rec2)
+    except Exception as e:
+        refused = e
+    st.identityKeyStore.dbConn.close()
+    st2 = h.open(db)
+    try:
+        ok1 = st2.containsSession(RECIP["k1"], 1) and bytes(st2.loadSession(RECIP["k1"], 1).serialize()) == bytes(rec1.serialize())
+        ok2 = refused is not None or (st2.containsSession(RECIP["k1"], 2) and bytes(st2.loadSession(RECIP["k1"], 2).serialize()) == bytes(rec2.serialize()))
+    finally:
+        st2.identityKeyStore.dbConn.close()
+    if not ok1:
+        r.violation("durable:storeSession:second-device", "storing a session for device 2 of a contact (%s) destroyed the contact's device-1 session" % (
+            "refused: %r" % refused if refused else "accepted"), {})
+    elif not ok2:
+        r.violation("durable:storeSession:second-device-lost", "a session stored (without error) for device 2 of a contact is not read back", {})
+
+
 def own_identity_first_open(r, work):
     """Own identity and registration id: whatever an opener of the store handed out is what every later open reads back - also when a
     second opener (another process / thread of the same account) initialises the brand-new store while the first one is between its
@@ -430,6 +457,19 @@ def run():
             replay_path(r, h, gp, p, full_crash=True)
             r.cov["traces_validated_against_impl"] += 1
         r.notes["spec_transitions_pk"] = len(gp.edges)
+        # one contact, sessions and identities only, histories of 4 operations: an update of one table must leave the contact's records in
+        # the other table alone (replacing a pinned identity while a session exists, and the like)
+        ex = core.tlc("KeyStore", "Edges_KeyStore_cross.cfg", r.scratch, workers=1, timeout=3000)
+        gx = core.Graph([e for e in ex.printed() if isinstance(e, dict) and "act" in e and e["act"]["name"] != "Crash"])
+        if len(gx.edges) < 300:
+            raise core.MachineryError("KeyStore cross edge dump too small (%d)" % len(gx.edges))
+        KEYS = ["k1"]
+        for p in gx.transition_cover(rng):
+            replay_path(r, h, gx, p, full_crash=True)
+            r.cov["traces_validated_against_impl"] += 1
+        r.notes["spec_transitions_cross"] = len(gx.edges)
+        KEYS = ["k1", "k2"]
+        second_device(r, h)
         own_identity_first_open(r, work)
     finally:
         shutil.rmtree(work, ignore_errors=True)
